@@ -41,9 +41,17 @@ def to_smt2(ob: Obligation, ground_only: bool = False) -> str:
     return s.to_smt2()
 
 
+RLIMIT_PER_MS = 1700
+
+
 def _budget_scale() -> float:
+    """Only cvc5 (an external process with a wall-clock limit) still needs a load allowance; z3 budgets are resource counts."""
+    return 1.0
+
+
+def _cvc5_scale() -> float:
     try:
-        return 2.0 if os.getloadavg()[0] > 12 else 1.0
+        return 3.0 if os.getloadavg()[0] > 12 else 1.0
     except OSError:
         return 1.0
 
@@ -111,7 +119,10 @@ def concretize(m: z3.ModelRef, term, tyname: str, depth=0):
 def _solve_z3(text: str, timeout_ms: int, inputs, want_model: bool, params: dict | None = None):
     ctx = z3.Context()
     s = z3.Solver(ctx=ctx)
-    s.set("timeout", timeout_ms)
+    # The budget is z3's deterministic resource counter (about 1.7 million units per second on an idle core), so a verdict does not
+    # depend on how busy the machine is; the wall-clock limit is only a safety net, eight times the nominal time.
+    s.set("rlimit", int(timeout_ms * RLIMIT_PER_MS))
+    s.set("timeout", int(timeout_ms * 8))
     for k, v in (params or {}).items():
         s.set(k, v)
     s.from_string(text)
@@ -135,7 +146,7 @@ def _solve_cvc5(text: str, timeout_ms: int):
         fn = f.name
     try:
         p = subprocess.run(
-            ["/usr/bin/cvc5", "--strings-exp", f"--tlimit={timeout_ms}", fn], capture_output=True, text=True, timeout=timeout_ms / 1000 + 5
+            ["/usr/bin/cvc5", "--strings-exp", f"--tlimit={int(timeout_ms * _cvc5_scale())}", fn], capture_output=True, text=True, timeout=timeout_ms * _cvc5_scale() / 1000 + 5
         )
         out = p.stdout.strip().splitlines()
         if out and out[0] in ("unsat", "sat"):
